@@ -36,7 +36,8 @@ Inductive op :=
 | Collect
 | Ramp (owner : bool) (fa fb : Z)
 | Donate (i : Z) (x : Z)
-| Advance (dh : Z).
+| Advance (dh : Z)
+| SetFees (owner : bool) (f : fees).    (* UpdateConfig { pool_fees }: PoolFee::is_valid, then stored; ledgers and balances untouched *)
 
 (* what an operation moved: to the acting user (signed, per asset), to the fee collector, burned *)
 Record effects := mkEff { e_user : t3; e_coll : t3; e_burned : t3; e_lp : Z }.
@@ -147,6 +148,12 @@ Definition step (p : pool) (o : op) : outcome (pool * effects) :=
       else Err E_UNAUTH
   | Donate i x => Ok (with_bal p (upd3 i (fun b => b + x) (p_bal p)), no_eff)
   | Advance dh => Ok (mkPool (p_bal p) (p_fee p) (p_all p) (p_burn p) (p_supply p) (p_lp p) (p_lp_self p) (p_cfg p) (p_height p + dh) (p_fees p) (p_cw20 p), no_eff)
+  | SetFees owner f =>
+      if owner then
+        if poolfee_valid f
+        then Ok (mkPool (p_bal p) (p_fee p) (p_all p) (p_burn p) (p_supply p) (p_lp p) (p_lp_self p) (p_cfg p) (p_height p) f (p_cw20 p), no_eff)
+        else Err E_OTHER
+      else Err E_UNAUTH
   end.
 
 (* a failed call leaves the state untouched (transaction atomicity: platform semantics, observed by the harness) *)
